@@ -85,4 +85,15 @@ CHECKS["C12"] = dict(
     design="5 C12", note=L3_NOTE,
     technique="TLA+ namespace generator + grammar `ns` labels (TLC) replayed on the real CLI with/without -w; absence, consistency and confinement judges")
 
+CHECKS["C15"] = dict(
+    level="model_checking",
+    text="Envelope-walk, grammar-seed and bounded grammar-walk states replayed through the real CLI with and without --redactFieldNames; "
+         "the k concretisations of a case put the line into the chosen namespace / a namespace it prefixes / a foreign one and plant "
+         "identifiers from six families (1-20 chars, dotted, substrings of each other and of IXSCAN, hex-looking) at the key positions "
+         "the statement names, as '$field' references and in seven plan-summary forms. Verdict: token-wise (and for long names "
+         "substring) absence, one pseudonym per name component across keys / references / plan summary and across lines, plan-summary "
+         "skeleton unchanged, literal values equal to the flag-off run, foreign lines byte-identical to the flag-off run.",
+    design="5 C15", note=L3_NOTE,
+    technique="TLA+ grammar/envelope cases (TLC) replayed on the real CLI with/without -f; absence, consistency, plan-summary and flag-off-equality judges")
+
 NOT_YET = {}
